@@ -26,6 +26,7 @@ import (
 
 	"helm.sh/helm/v4/pkg/chart/v2/loader"
 
+	"verif/harness/internal/chartx"
 	"verif/harness/internal/hx"
 )
 
@@ -65,10 +66,10 @@ type c16Case struct {
 	Root string `json:"root,omitempty"`
 	Dest string `json:"dest,omitempty"`
 	// sandbox kinds (c16_sandbox.go)
-	Plant  []c16Plant `json:"plant,omitempty"`
-	Legacy bool       `json:"legacy,omitempty"`
-	URLPath string    `json:"url_path,omitempty"`
-	Note   string     `json:"note,omitempty"`
+	Plant   []c16Plant `json:"plant,omitempty"`
+	Legacy  bool       `json:"legacy,omitempty"`
+	URLPath string     `json:"url_path,omitempty"`
+	Note    string     `json:"note,omitempty"`
 }
 
 type c16ScanEnt struct {
@@ -99,15 +100,15 @@ type c16Obs struct {
 	// join
 	Path string `json:"path,omitempty"`
 	// sandbox
-	Changed []string `json:"changed,omitempty"` // paths (relative to the sandbox root) that differ
-	LockPre  string  `json:"lock_pre,omitempty"`
-	LockPost string  `json:"lock_post,omitempty"`
-	Panic string `json:"panic,omitempty"`
+	Changed  []string `json:"changed,omitempty"` // paths (relative to the sandbox root) that differ
+	LockPre  string   `json:"lock_pre,omitempty"`
+	LockPost string   `json:"lock_post,omitempty"`
+	Panic    string   `json:"panic,omitempty"`
 }
 
 func (*c16) ID() string { return "C16" }
 func (*c16) CoqImport() string {
-	return "From Helm Require Import Chart.Paths Chart.Archive Chart.Lock Run.RunC16."
+	return "From Helm Require Import Chart.Esc Chart.Paths Chart.Archive Chart.Lock Run.RunC16."
 }
 func (*c16) Rule() string {
 	return "arch: gzip+tar streams built from 1-6 raw entries (names from adversarial components: absolute, '..' in every position, " +
@@ -431,7 +432,7 @@ func (p *c16) Oracle(ci, oi any) []hx.Violation {
 
 // ---------------------------------------------------------------- Coq printer
 
-func c16CoqBytes(b []byte) string { return hx.CoqStr(string(b)) }
+func c16CoqBytes(b []byte) string { return chartx.CoqStr(string(b)) }
 
 func c16CoqErr(cls string) string {
 	return map[string]string{"stream": "EStream", "abs": "EAbs", "outside": "EOutside", "parent": "EParent", "drive": "EDrive",
@@ -450,7 +451,7 @@ func (p *c16) CoqCase(ci, oi any) string {
 		}
 		ents := make([]string, len(obs.Scan))
 		for i, e := range obs.Scan {
-			ents[i] = fmt.Sprintf("mkTE %s %s %s %s %s %s", hx.CoqStr(e.Name), hx.CoqZ(int64(e.Type)), hx.CoqZ(e.Mode), hx.CoqZ(e.Size),
+			ents[i] = fmt.Sprintf("mkTE %s %s %s %s %s %s", chartx.CoqStr(e.Name), hx.CoqZ(int64(e.Type)), hx.CoqZ(e.Mode), hx.CoqZ(e.Size),
 				c16CoqBytes(e.Data), hx.CoqBool(e.RErr))
 		}
 		lim := "None"
@@ -463,7 +464,7 @@ func (p *c16) CoqCase(ci, oi any) string {
 		} else {
 			fs := make([]string, len(obs.Files))
 			for i, f := range obs.Files {
-				fs[i] = fmt.Sprintf("mkFile %s %s", hx.CoqStr(f.Name), c16CoqBytes(f.Data))
+				fs[i] = fmt.Sprintf("mkFile %s %s", chartx.CoqStr(f.Name), c16CoqBytes(f.Data))
 			}
 			o = "(inr " + hx.CoqList(fs) + ")"
 		}
